@@ -91,6 +91,10 @@ def atom_vocabulary():
     A.append(("exists", "fields", "nokey"))
     A.append(("test", "fields", ("x",), "num_pos", ()))
     A.append(("test", "fields", ("x",), "is_none", ()))
+    A.append(("test", "fields", ("x",), "gt_arg", (1,)))
+    A.append(("test", "fields", ("x",), "between_args", (-1, 2)))
+    A.append(("test", "tags", ("k",), "startswith_arg", ("a",)))
+    A.append(("test", "measurement", (), "startswith_arg", ("m1",)))
     A.append(("cmp", "fields", ("x", ("map", "neg")), "<", 0))
     A.append(("cmp", "fields", ("x", ("map", "abs")), ">=", 1.5))
     A.append(("noop", "fields"))
@@ -107,7 +111,7 @@ def quick_atoms(A):
             seen.add(key)
             keep.append(a)
     # one more each for the None/missing sensitive ones
-    return keep[:34]
+    return keep[:38]
 
 
 CORE_ATOMS = [
